@@ -29,6 +29,10 @@ fn registry() -> Vec<PartDesc> {
     v.push(desc::<props::c10::C10E2>("exploration"));
     v.push(desc::<props::c10::C10E2X>("exploration"));
     v.push(desc::<props::c10::C10Free>("exploration"));
+    v.push(desc::<props::c11::C11E0>("exploration"));
+    v.push(desc::<props::c11::C11E2>("exploration"));
+    v.push(desc::<props::c11::C11E2X>("exploration"));
+    v.push(desc::<props::c11::C11Free>("exploration"));
     v.push(desc::<props::c12::C12>("exploration"));
     v.push(desc::<props::c08::C08>("fault_enumeration"));
     #[cfg(feature = "async-trait")]
